@@ -495,6 +495,9 @@ func (ex *Exec) runPath(it workItem, harnessNames []string, cfg *runConfig) {
 			}
 		}()
 		ex.initGlobals()
+		if ex.initFailure != "" {
+			unsupported("%s", ex.initFailure)
+		}
 		cl, ok := ex.registry[ex.harness]
 		if !ok {
 			panic(engineError("harness not registered: " + ex.harness))
